@@ -908,8 +908,8 @@ def remove_value(source: NixSourceCode, npath: str) -> str:
             # with prior formatting (e.g., trailing comments without an extra EOL).
             while source.trailing and source.trailing[-1] in (linebreak, empty_line):
                 source.trailing.pop()
-        if removed_layer and removed_layer.get(
-            "body_after"
+        if (
+            removed_layer and layers and removed_layer.get("body_after")
         ):  # pragma: no cover - defensive restoration
             # Restore trailing trivia that was stashed on the scope layer.
             if not source.trailing:
